@@ -155,12 +155,12 @@ def run(tier):
         'is rebuilt with run-time wrappers (installed by the harness, no change to /repo) around clause insertion and group creation that '
         'fire when a group receives an identifier at or below a variable already mentioned; literal ranges and documented variable counts '
         'are checked on the result. This is the property where the solver contributes least: the index arithmetic is decided under C11.')
-    run.bounds = ['histories: 2 operations (11 kinds x sizes 0..2 each) and 3 operations', 'monitor: the %s boxes of C01, C02, C03, C04, C05 (%s) and 12 larger instances' % (tier, 'every point' if tier != 'quick' else 'every third point')]
-    run.bounds += ['history steps include bulk insertion (list, tuple, generator, constructor) and reuse/overwriting of the lists passed in']
+    run.bounds = ['histories: 2 operations (15 kinds x sizes 0..2 each) and 3 operations', 'monitor: the %s boxes of C01, C02, C03, C04, C05 (%s) and 12 larger instances' % (tier, 'every point' if tier != 'quick' else 'every third point')]
+    run.bounds += ['history steps include bulk insertion (list, tuple, generator, constructor), reuse/overwriting of the lists passed in, and a lazy clause generator that creates a variable and a block on the same formula while add_clauses_from / add_constraints_from consumes it']
     run.outside = ['clauses inserted with check=False by user code (documented as trusting the caller)', 'longer histories']
     run.assumptions = ['monitor wrappers see every insertion because all builders go through add_clause / add_constraint / _add_variable_group']
     T = 300 if tier == 'quick' else 1200
-    sel = [n for n in names if n.startswith('h_e_hist2_')] + ([n for n in names if n.startswith('h_e_hist3_')] if tier != 'quick' else ['h_e_hist3_1', 'h_e_hist3_5', 'h_e_hist3_11'])
+    sel = [n for n in names if n.startswith('h_e_hist2_')] + ([n for n in names if n.startswith('h_e_hist3_')] if tier != 'quick' else ['h_e_hist3_1', 'h_e_hist3_5', 'h_e_hist3_11', 'h_e_hist3_14'])
     sel.append('h_e_twice')
     conds = [xengine.Cond('c10', n, T, symbolic=False) for n in sel]
     part = xengine.run_conditions('c10.x', conds)
